@@ -132,6 +132,8 @@ package types
 // verif:func checkValidity
 //@ callsite verifyHeader [this-header-this-client] dollar_header == header && dollar_clientState == clientState && dollar_store == store && dollar_ctx == ctx
 //@ callsite VerifyCascadingFields [this-header] dollar_header == header
+// the revision number is relayer-supplied and not part of the block hash: it must be the client's own
+//@ ensures [same-revision] result == nil ==> header.Height.RevisionNumber == clientState.Header.Height.RevisionNumber
 //@ ensures [rules] result == nil ==> ncalls("ValidateBasic") == 1 && callsok("ValidateBasic") && ncalls("verifyHeader") == 1 && callsok("verifyHeader")
 //@ ensures [seal-unless-rinkeby] result == nil && clientState.ChainId != 4 ==> len(header.Extra) <= 32 && ncalls("VerifyCascadingFields") == 1 && callsok("VerifyCascadingFields")
 
